@@ -59,7 +59,12 @@ def paneInto (info : PaneInfo) (ss : List (Val → Except Exc Val)) (v : Val) : 
   | .obj _ _ _ =>
     let live := (info.fields.zip ss).filter fun (f, _) => !f.exclude
     let one := fun (p : FieldInfo × (Val → Except Exc Val)) =>
-      match getAttr p.1.name v with
+      -- `getattr(val, name)`: the instance attribute, else the class attribute a plain default left behind
+      let attr : Except Exc Val := match getAttr p.1.name v, p.1.default with
+        | .ok x, _ => .ok x
+        | .error _, .value d => .ok d
+        | .error e, _ => .error e
+      match attr with
       | .ok x => (p.2 x).map fun d => (p.1.outName, d)
       | .error e => .error e
     match exMapM one live with
